@@ -141,13 +141,10 @@ def compile_props(ctx: Ctx, gen: dict[str, str], order: list[str], timeout: int 
             res.ok = False
             if not res.first_error:
                 res.first_error = f"{stem}.v: {err.strip()[-1500:]}"
-            # theorems of files not compiled are undischarged
-            for later in order[order.index(stem):]:
-                s2 = (wd / f"{later}.v").read_text()
-                for thm in re.findall(r"^\s*Print Assumptions\s+([\w.']+)\s*\.", s2, flags=re.M):
-                    res.theorems.setdefault(thm, {"ok": False, "axioms": "", "file": later})
-                    res.theorems[thm]["ok"] = False if later != stem or thm not in ass else res.theorems[thm]["ok"]
-            break
+            # the file produced no .vo: none of its theorems is discharged; files that
+            # do not depend on it are still compiled
+            for thm in re.findall(r"^\s*Print Assumptions\s+([\w.']+)\s*\.", src, flags=re.M):
+                res.theorems[thm] = {"ok": False, "axioms": "", "file": stem}
     return res
 
 
